@@ -123,7 +123,8 @@ def _flow(mode):
 
 
 def h_kernel(X, maxlen):
-    mode = X.choose("mode", ["regular", "upstream:http://up:3128", "reverse:http://example.com", "transparent", "socks5"])
+    all_modes = ["regular", "upstream:http://up:3128", "reverse:http://example.com", "transparent", "socks5"]
+    mode = X.choose("mode", all_modes if maxlen <= 2 else all_modes[::2])
     is_proxy = mode.startswith(("regular", "upstream"))
     header = "Proxy-Authorization" if is_proxy else "Authorization"
     status = 407 if is_proxy else 401
@@ -415,7 +416,7 @@ def obligations(tier):
     q = tier == "quick"
     ml = 2 if q else 3
     return [
-        Symx("kernel", lambda X: h_kernel(X, ml), bounds=f"user, password: all strings of length 0..{ml} over {ALPHABET} x validator outcome x 5 proxy modes; {len(MALFORMED)} malformed header shapes",
+        Symx("kernel", lambda X: h_kernel(X, ml), bounds=f"user, password: all strings of length 0..{ml} over {ALPHABET} x validator outcome x {5 if q else 3} proxy modes; {len(MALFORMED)} malformed header shapes",
              encoded=ENCODED[:9], must_reach=["http-path", "accepted", "refused", "malformed"], parallel_depth=3),
         Symx("paths", lambda X: h_paths(X, 3 if q else 4, True), bounds="paths {regular absolute-form, CONNECT + inner requests, reverse, upstream, SOCKS5 + inner requests} x proxyauth {user:pass, any} x "
              f"sequences of <= {3 if q else 4} requests (GET / POST with body in its own segment; on the CONNECT path CONNECT or absolute-form) on one connection x credentials {{none, wrong, valid, valid with ':' in the password}}; then a second unauthenticated connection", encoded=ENCODED,
